@@ -99,6 +99,9 @@ func c09Pair(seed uint64, aligned bool) *lib.Pair {
 	p.Old.PutFile("kept-then-prefix.bin", kept)
 	p.New.PutFile("kept-then-prefix.bin", kept)
 	p.New.PutFile("kept-then-prefix.bin.more", append(append([]byte(nil), kept[:2*lib.BS]...), rb(5000)...))
+	// an old file that is read, then other old files, then read AGAIN much later (pool order A .. B .. A)
+	p.New.PutFile("zzz-late-copy-of-copy-odd.bin", p.Old.E["copy-odd.bin"].Data)
+	p.New.PutFile("zzz-late-prefix-of-ranged.bin", append(append([]byte(nil), big[:3*lib.BS]...), rb(100)...))
 	// empty old file kept; a file the patch does not reference; brand-new data
 	p.Old.PutFile("empty.bin", nil)
 	p.New.PutFile("empty.bin", nil)
